@@ -1,0 +1,201 @@
+// Copyright 2024 Versity Software
+// This file is licensed under the Apache License, Version 2.0
+// (the "License"); you may not use this file except in compliance
+// with the License.  You may obtain a copy of the License at
+//
+//   http://www.apache.org/licenses/LICENSE-2.0
+//
+// Unless required by applicable law or agreed to in writing,
+// software distributed under the License is distributed on an
+// "AS IS" BASIS, WITHOUT WARRANTIES OR CONDITIONS OF ANY
+// KIND, either express or implied.  See the License for the
+// specific language governing permissions and limitations
+// under the License.
+
+//go:build verif
+
+// Package verifhook provides named instrumentation points for runtime
+// verification. With the "verif" build tag the points can log, delay,
+// block on an external scheduler, or kill the process, all configured
+// from the environment:
+//
+//	VERIF_HOOK_LOG=<file>             append "<seq> <pid> <goroutine> <name> [detail]" per hit
+//	VERIF_HOOK_ARM=<file>             hits are only counted/gated/crashed while <file> exists
+//	VERIF_HOOK_CRASH=<name|*>#<n>     SIGKILL self at the n-th (armed) matching hit
+//	VERIF_HOOK_DELAY=<name>=<ms>,...  fixed sleep at a point
+//	VERIF_HOOK_RAND=<seed>:<permille>:<maxms>  PRNG-chosen sleeps at any point
+//	VERIF_HOOK_GATE=<unix socket>     scheduler socket
+//	VERIF_HOOK_GATED=<name,...|*>     points that block on the scheduler
+package verifhook
+
+import (
+	"bytes"
+	"fmt"
+	"math/rand"
+	"net"
+	"os"
+	"runtime"
+	"strconv"
+	"strings"
+	"sync"
+	"sync/atomic"
+	"syscall"
+	"time"
+)
+
+var (
+	once sync.Once
+
+	logMu sync.Mutex
+	logf  *os.File
+	seq   atomic.Int64
+
+	armFile string
+
+	crashName string
+	crashN    int64
+	crashCnt  atomic.Int64
+
+	delays map[string]time.Duration
+
+	rndMu    sync.Mutex
+	rnd      *rand.Rand
+	rndPerm  int
+	rndMaxMs int
+
+	gateSock string
+	gateAll  bool
+	gated    map[string]bool
+)
+
+func setup() {
+	if p := os.Getenv("VERIF_HOOK_LOG"); p != "" {
+		f, err := os.OpenFile(p, os.O_CREATE|os.O_WRONLY|os.O_APPEND, 0o666)
+		if err == nil {
+			logf = f
+		}
+	}
+	armFile = os.Getenv("VERIF_HOOK_ARM")
+	if c := os.Getenv("VERIF_HOOK_CRASH"); c != "" {
+		if i := strings.LastIndexByte(c, '#'); i > 0 {
+			n, err := strconv.ParseInt(c[i+1:], 10, 64)
+			if err == nil && n > 0 {
+				crashName, crashN = c[:i], n
+			}
+		}
+	}
+	if d := os.Getenv("VERIF_HOOK_DELAY"); d != "" {
+		delays = map[string]time.Duration{}
+		for _, kv := range strings.Split(d, ",") {
+			k, v, ok := strings.Cut(kv, "=")
+			if !ok {
+				continue
+			}
+			ms, err := strconv.Atoi(v)
+			if err == nil {
+				delays[k] = time.Duration(ms) * time.Millisecond
+			}
+		}
+	}
+	if r := os.Getenv("VERIF_HOOK_RAND"); r != "" {
+		parts := strings.Split(r, ":")
+		if len(parts) == 3 {
+			s, e1 := strconv.ParseInt(parts[0], 10, 64)
+			pm, e2 := strconv.Atoi(parts[1])
+			mx, e3 := strconv.Atoi(parts[2])
+			if e1 == nil && e2 == nil && e3 == nil && mx > 0 {
+				rnd = rand.New(rand.NewSource(s + int64(os.Getpid())))
+				rndPerm, rndMaxMs = pm, mx
+			}
+		}
+	}
+	gateSock = os.Getenv("VERIF_HOOK_GATE")
+	if g := os.Getenv("VERIF_HOOK_GATED"); g != "" {
+		gated = map[string]bool{}
+		for _, n := range strings.Split(g, ",") {
+			if n == "*" {
+				gateAll = true
+			}
+			gated[n] = true
+		}
+	}
+}
+
+func goid() string {
+	var buf [64]byte
+	b := buf[:runtime.Stack(buf[:], false)]
+	b = bytes.TrimPrefix(b, []byte("goroutine "))
+	if i := bytes.IndexByte(b, ' '); i > 0 {
+		return string(b[:i])
+	}
+	return "0"
+}
+
+func armed() bool {
+	if armFile == "" {
+		return true
+	}
+	_, err := os.Stat(armFile)
+	return err == nil
+}
+
+// Point marks a named step of an operation.
+func Point(name string) {
+	once.Do(setup)
+	hit(name, "", true)
+}
+
+// Note records a named observation with a detail string; it never
+// delays, blocks or crashes.
+func Note(name, detail string) {
+	once.Do(setup)
+	hit(name, detail, false)
+}
+
+func hit(name, detail string, active bool) {
+	isArmed := armed()
+	var gid string
+	if logf != nil || gateSock != "" {
+		gid = goid()
+	}
+	if logf != nil && isArmed {
+		line := fmt.Sprintf("%d %d %s %s %s\n", seq.Add(1), os.Getpid(), gid, name,
+			strings.ReplaceAll(detail, "\n", "\\n"))
+		logMu.Lock()
+		logf.WriteString(line)
+		logMu.Unlock()
+	}
+	if !active || !isArmed {
+		return
+	}
+	if crashN > 0 && (crashName == "*" || crashName == name) {
+		if crashCnt.Add(1) == crashN {
+			syscall.Kill(os.Getpid(), syscall.SIGKILL)
+			select {}
+		}
+	}
+	if d, ok := delays[name]; ok {
+		time.Sleep(d)
+	}
+	if rnd != nil {
+		rndMu.Lock()
+		var d time.Duration
+		if rnd.Intn(1000) < rndPerm {
+			d = time.Duration(rnd.Intn(rndMaxMs*1000)+1) * time.Microsecond
+		}
+		rndMu.Unlock()
+		if d > 0 {
+			time.Sleep(d)
+		}
+	}
+	if gateSock != "" && (gateAll || gated[name]) {
+		c, err := net.Dial("unix", gateSock)
+		if err != nil {
+			return // fail open
+		}
+		defer c.Close()
+		fmt.Fprintf(c, "%d %s %s\n", os.Getpid(), gid, name)
+		var b [1]byte
+		c.Read(b[:])
+	}
+}
